@@ -145,7 +145,8 @@ class World:
         self.env_handlers = {}       # kind -> callable(payload)
         self.seam_ord = 0            # seam-call ordinal of the main thread within the current step
         self.seam_hooks = {}         # ordinal -> list of (kind, payload) applied at that seam call
-        self.on_main_seam = None     # callable() run at every main-thread seam (signal delivery)
+        self.on_main_seam = None     # callable(name) run at every main-thread seam (signal delivery)
+        self.main_wake = None        # callable(blocked_in) -> True when a deliverable signal is pending
         self.probes = {}
         self.faults = {}
         self.access = []             # (thread idx, object) accesses for the interleaving measure
@@ -230,6 +231,8 @@ class World:
             return True
         if t.state == "blocked":
             if t.pending_exc is not None:
+                return True
+            if t is self.main and self.main_wake is not None and self.main_wake(t.blocked_in):
                 return True
             if t.pred is not None and t.pred():
                 return True
